@@ -223,6 +223,38 @@ func c19units(tier string) []mc.Unit {
 		{"MeltingTemp(GTAAAACGACGGCCAGT)", func() any { return primers.MeltingTemp("GTAAAACGACGGCCAGT") }, showSprint},
 		{"MarmurDoty(ACGTCCGGACTT)", func() any { return primers.MarmurDoty("ACGTCCGGACTT") }, showSprint},
 	}, 3))
+	// longer oligos (an enumerated family): lengths 9..30, 50, 200; pseudo-random, self-complementary and
+	// A/T- or G/C-terminated variants, on the full grid
+	us = append(us, mc.Unit{Name: "long", Weight: 100, Run: func(r *mc.Recorder) {
+		var cnt, nt, seqs int64
+		x := uint32(31)
+		for _, n := range []int{9, 10, 12, 13, 14, 15, 16, 17, 20, 25, 30, 50, 200} {
+			for v := 0; v < 4; v++ {
+				b := make([]byte, n)
+				for i := range b {
+					x = x*1664525 + 1013904223
+					b[i] = "ACGT"[(x>>26)%4]
+				}
+				s := string(b)
+				switch v {
+				case 1: // self-complementary
+					h := s[:n/2]
+					s = h + nnRC(h)
+				case 2:
+					s = s[:n-1] + "A"
+				case 3:
+					s = strings.ToLower(s[:n-1]) + "G"
+				}
+				c19seq(r, s, &cnt, &nt)
+				seqs++
+			}
+		}
+		r.Eval(cnt)
+		r.AddStates(seqs)
+		r.AddTransitions(cnt)
+		r.AddNontrivial(seqs)
+		r.Bound("long", "oligos of 9..30, 50 and 200 bases (pseudo-random, self-complementary, A- and G-terminated, mixed case) x 80 grid points")
+	}})
 	// case masks
 	us = append(us, mc.Unit{Name: "case", Weight: 200, Run: func(r *mc.Recorder) {
 		var cnt, nt, seqs int64
